@@ -356,6 +356,23 @@ class MetadataManager:
                 self.storage.write_file_cas(self.HINT_PATH, content, hint_etag)
                 return
             except CASConflictError as e:
+                # A precondition failure does not prove the write did not land:
+                # the S3 client re-sends a request whose response was lost, and
+                # the retry of a conditional PUT that DID land fails against its
+                # own first attempt. Metadata file names are unique per commit
+                # attempt, so a hint naming our file means we committed. Treating
+                # that as a clean conflict deleted the metadata file the pointer
+                # names.
+                try:
+                    landed = self.storage.read_file(self.HINT_PATH).decode(
+                        "utf-8", errors="replace"
+                    ).strip() == metadata_file
+                except Exception as probe_error:
+                    raise AmbiguousCommitError(
+                        f"Version hint write conflicted and the hint could not be re-read: {probe_error}"
+                    ) from e
+                if landed:
+                    return
                 raise ConcurrentModificationException(
                     "Version hint changed under us (CAS conflict); retrying"
                 ) from e
